@@ -198,6 +198,9 @@ def large_cases(quick):
     """operand counts around the widths of the count operands (bcgen.large_family / large_param_family)"""
     sizes = None if quick else bcgen.LARGE_SIZES + [511, 512, 513, 5000]
     fam = bcgen.large_family(sizes) + bcgen.large_param_family()
+    if not quick:
+        # heights beyond 32767: the emitter's running height and maxima must not wrap (notes/C02-findings.md F7)
+        fam += [x for x in bcgen.large_family([40000]) if x[0].startswith(("large:carr:int", "large:makearray:"))]
     return [Case(n, src=s, opts=o) for n, s, o in fam]
 
 
